@@ -608,7 +608,8 @@ func (m *Mux) serveGRPC(w http.ResponseWriter, r *http.Request) {
 	if !stream.sentHeader {
 		if err := stream.SendHeader(nil); err != nil {
 			m.opts.endRPC(ctx, beginTime, herr)
-			return // ctx canceled
+			r.Body.Close() // release a stream call parked in a body read
+			return         // ctx canceled
 		}
 	}
 	flusher.Flush()
